@@ -50,8 +50,55 @@ export const PROBES = [
   { id: "record-number-key", prog: one(T.util("Record", [T.kw("number"), T.kw("string")])), value: { $obj: "plain", fields: [["1", "x", 1]] }, expect: "Y" },
 ];
 
+// Source-text probes: one program per repaired defect (and per documented refusal), with the values
+// that told the two behaviours apart; `expect` is TypeScript's verdict, "diagnostic" a refusal.
+const fn0 = () => 1;
+export const TEXT_PROBES = [
+  { id: "never-in-template-hole-union", text: 'type T = never | "A" | "b";\ntype X = `${number}$${T}-`;', cases: [["1$A-", "Y"], ["1$c-", "N"]] },
+  { id: "same-member-twice-in-union", text: 'type T0 = { tag: "a"; k: 1 };\ntype T1 = T0 | T0;\ntype X = Omit<T1, "tag">;', cases: [[{ k: 1 }, "Y"], [{ k: 2 }, "N"]] },
+  { id: "labelled-tuple-rest", text: "type X = [a: string, ...rest: number[]];", cases: [[["x", 1, 2], "Y"], [["x", [1]], "N"], [["x"], "Y"]] },
+  { id: "labelled-tuple-optional", text: "type X = [a: string, b?: number];", expect: "diagnostic" },
+  { id: "mapped-plus-optional", text: 'type X = { [K in "a" | "b"]+?: string };', cases: [[{}, "Y"], [{ a: "s" }, "Y"], [{ a: 1 }, "N"]] },
+  { id: "generic-interface-extends-generic", text: "interface P<T> { p: T }\ninterface C<T> extends P<T[]> { c: T }\ntype X = C<string>;", cases: [[{ p: ["a"], c: "b" }, "Y"], [{ p: "a", c: "b" }, "N"]] },
+  { id: "conditional-distributes-over-inline-union", text: 'type F<T> = T extends string ? "s" : "n";\ntype X = F<string | number>;', cases: [["s", "Y"], ["n", "Y"], ["x", "N"]] },
+  { id: "conditional-distributes-through-parentheses", text: "type G<T> = (T) extends number ? T : never;\ntype X = G<string | number>;", cases: [[1, "Y"], ["a", "N"]] },
+  { id: "conditional-distributes-over-named-union", text: 'type U = string | number;\ntype F<T> = T extends string ? "s" : "n";\ntype X = F<U>;', cases: [["s", "Y"], ["n", "Y"]] },
+  { id: "conditional-distributes-over-boolean", text: 'type G<T> = T extends true ? "t" : "f";\ntype X = G<boolean>;', cases: [["t", "Y"], ["f", "Y"]] },
+  { id: "conditional-over-never", text: 'type F<T> = T extends string ? "s" : "n";\ntype X = F<never>;', cases: [["s", "N"], ["n", "N"]] },
+  { id: "interface-declarations-merge", text: "interface I { a: string }\ninterface I { b: number }\ntype X = I;", cases: [[{ a: "x", b: 1 }, "Y"], [{ b: 1 }, "N"], [{ a: "x" }, "N"]] },
+  { id: "type-parameter-does-not-capture", text: "type ID = number;\ntype Item = { id: ID };\ntype Page<ID> = { items: Item[]; cursor: ID };\ntype X = Page<string>;", cases: [[{ items: [{ id: 1 }], cursor: "c" }, "Y"], [{ items: [{ id: "s" }], cursor: "c" }, "N"]] },
+  { id: "template-text-is-cooked", text: "type X = `a\\nb${number}`;", cases: [["a\nb1", "Y"], ["a\\nb1", "N"]] },
+  { id: "literal-key-on-index-signature", text: 'type X = Record<string, number>["x"];', cases: [[1, "Y"], ["s", "N"]] },
+  { id: "literal-key-next-to-named-keys", text: 'type R = { a: string; [k: string]: string | number };\ntype X = R["b"];', cases: [[1, "Y"], ["s", "Y"], [true, "N"]] },
+  { id: "unknown-inside-computed-type", text: "type Resp = { data: unknown; n: number };\ntype X = Exclude<Resp | null, null>;", cases: [[{ data: fn0, n: 1 }, "Y"], [{ n: 1 }, "Y"], [{ data: 1 }, "N"]] },
+  { id: "tuple-rest-in-the-middle", text: "type X = [string, ...number[], boolean];", expect: "diagnostic" },
+  { id: "mapped-type-as-clause", text: 'type X = { [K in "a" | "b" as `x_${K}`]: string };', expect: "diagnostic" },
+  { id: "optional-key-named-like-a-prototype-member", text: "type X = { toString?: string; a: number };", cases: [[{ a: 1 }, "Y"], [{ a: 1, toString: "s" }, "Y"], [{ a: 1, toString: 1 }, "N"]] },
+];
+
 export async function run(ctx) {
   const locCache = new Map();
+  if (ctx.shard === 0) {
+    for (const p of TEXT_PROBES) {
+      const text = `${p.text}\nexport const Parsers = parse.buildParsers<{ X: X }>();\n`;
+      const r = await compileText(ctx, text);
+      ctx.count("text_probes");
+      ctx.judged();
+      if (p.expect === "diagnostic") {
+        if (r.parsers || r.res.outcome !== "diagnostics") ctx.violation({ signature: `probe:${p.id}|accepted-instead-of-refused`, clause: "unsupported-spelling-silently-converted", detail: text, replay: { kind: "compile", text } });
+        continue;
+      }
+      if (!r.parsers) {
+        ctx.violation({ signature: `probe-not-compiled|${p.id}|${r.res.outcome}`, clause: "supported-program-rejected", detail: `${JSON.stringify(r.res.diagnostics?.[0]?.message ?? r.res.outcome)}\n${text}`, replay: { kind: "compile", text } });
+        continue;
+      }
+      for (const [v, want] of p.cases) {
+        const impl = implOf(r.parsers.X, v);
+        ctx.judged();
+        if (impl !== want) ctx.violation({ signature: `${impl}/${want}|probe:${p.id}`, clause: impl === "Y" ? "accepts-non-member" : "rejects-member", detail: `${text}\non ${show(v)}: validator ${impl}, TypeScript ${want}`, replay: { kind: "pair", text, parser: "X", value: toEjson(v), expect: want, observed: impl, options: null } });
+      }
+    }
+  }
   // probes (shard 0 only)
   if (ctx.shard === 0) {
     for (const p of PROBES) {
